@@ -2,6 +2,6 @@
 # MANIFEST.setup_cmd: build the Lean model, every property module and the driver, and the harness.
 set -e
 cd /verif/lean
-lake build CelModel celmodel $(python3 -c "import json;print(' '.join(v['module'] for v in json.load(open('obligations.json')).values()))")
+lake build CelModel celmodel $(python3 -c "import json;print(' '.join(m for v in json.load(open('obligations.json')).values() for m in v['modules']))")
 cd /verif/harness
 CARGO_NET_OFFLINE=true CARGO_TARGET_DIR=/verif/harness/target cargo build --offline --quiet
